@@ -83,3 +83,8 @@ claim('C07', 'fault_enumeration', 'systematic error-point enumeration (cut / cor
       'every token of every included file is an abort point, and all API histories to the depth bound run; after cfg_free the library-allocation live table must be empty, LeakSanitizer silent, descriptors and FILE handles balanced and every '
       'pointer value released exactly once, with ASan watching for double free / use after free throughout. Ownership bugs are path-specific, so enumerating abort points is the level that reaches them.',
       'Trusts: allocmon sees all allocations of confuse.c and the generated lexer; libc-internal allocations only through LeakSanitizer; base texts are a finite hand-built + random set.')
+
+claim('C18', 'fault_enumeration', 'exhaustive single-fault injection: for each of 18 workloads every k-th allocation request of confuse.c fails once (force-included failable allocator), one process per (workload, k), judged by exit status, AddressSanitizer, live-block table and continued usability',
+      'The fault-free run of each workload records the ordered list of allocation requests issued by the library source proper; then every single one of them is made to fail in its own process. A run must not abort or crash, later calls must still work '
+      '(dump, print, parse, free) and no library block may remain allocated. The unwind code of ~60 allocation sites is dead unless a fault is injected at exactly that site, so exhaustive enumeration over k is the level; it is complete for these workloads.',
+      'Trusts: the workloads as a cover of the public entry points; scanner-internal allocations are out of scope by the property; one fault per run. Known finding: abort() in cfg_init_defaults under OOM (listed in known_findings.json).')
